@@ -610,6 +610,67 @@ def emptyS (w : World) (i : Nat) : Except Err World := do
   let s ← w.get? i
   .ok (w.setStrm i (s.zeroed (w.pkgOf s).length))
 
+/-! ### phase views as operands (`ms['g']`) -/
+
+/-- an operand of an operation: a stream of the world, or the phase view `ms[p]` of one of them (a live
+single-phase stream on the row of that phase) -/
+inductive Ref where
+  | strm (i : Nat)
+  | view (j : Nat) (p : Char)
+
+/-- the row of the first entry with phase `q` -/
+def rowOf (l : PhRows) (q : Char) : Row :=
+  match l.find? (·.1 == q) with
+  | some pr => pr.2
+  | none => []
+
+/-- Make the operand addressable by an index.  A view of a multi-phase stream (`MultiStream.__getitem__`:
+the phase or its other case, labelled with the requested letter) is appended to the world as a temporary
+stream holding the row as it is *now*: every operation reads its operands before it writes, which is what
+the code achieves for a row that is both read and written (`repeated` accounting in `SparseVector.mix_from`,
+`row -= row`).  `Stream.__getitem__` of a single-phase stream returns the stream itself when the letter
+matches up to case. -/
+def World.bind (w : World) : Ref → Except Err (World × Nat)
+  | .strm i => .ok (w, i)
+  | .view j p => do
+    let s ← w.get? j
+    if s.multi then
+      match resolve s.ph p with
+      | none => .error .undefinedPhase
+      | some q => .ok ({ w with strms := w.strms ++ [{ pkg := s.pkg, multi := false, ph := [(p, rowOf s.ph q)] }] },
+                       w.strms.length)
+    else if p.toLower == s.phase.toLower then .ok (w, j)
+    else .error .undefinedPhase
+
+def World.bindAll (w : World) : List Ref → Except Err (World × List Nat)
+  | [] => .ok (w, [])
+  | r :: rs => do
+    let (w1, i) ← w.bind r
+    let (w2, is) ← w1.bindAll rs
+    .ok (w2, i :: is)
+
+/-- forget the temporaries -/
+def World.trim (w : World) (n : Nat) : World := { w with strms := w.strms.take n }
+
+/-- the operand names a stream of the world (not a temporary) -/
+def Ref.valid (n : Nat) : Ref → Bool
+  | .strm i => i < n
+  | .view j _ => j < n
+
+/-- `x.separate_out(y, energy_balance=False)` where `y` may be a phase view -/
+def sepR (w : World) (xi : Nat) (y : Ref) : Except Err World := do
+  if !y.valid w.strms.length then .error .rejected else
+  let (w1, yi) ← w.bind y
+  let w2 ← sep w1 xi yi
+  .ok (w2.trim w.strms.length)
+
+/-- `r.mix_from([...], energy_balance=False)` where inlets may be phase views -/
+def mixR (w : World) (ri : Nat) (ins : List Ref) : Except Err World := do
+  if !ins.all (Ref.valid w.strms.length) then .error .rejected else
+  let (w1, is) ← w.bindAll ins
+  let w2 ← mix w1 ri is
+  .ok (w2.trim w.strms.length)
+
 /-! ### observation -/
 
 /-- flow of chemical `c` in stream `s`, summed over its phases: the quantity the property is about -/
